@@ -131,6 +131,10 @@ def corrupt(path, c, d):
             del h5.attrs["fluorescence:sample rate"]
         elif c == "chcount":
             h5.attrs["fluorescence:channel count"] = 3
+        elif c == "chcount0":
+            h5.attrs["fluorescence:channel count"] = 0
+        elif c == "lasers0":
+            h5.attrs["fluorescence:laser count"] = 0
         elif c == "lasers":
             h5.attrs["fluorescence:laser count"] = 2
         elif c == "samples":
